@@ -414,11 +414,11 @@ var partialExempt = map[string]string{
 	"(*state).applyDefaults:Elem":             "documented contract of ApplyDefaults: the argument must be a pointer to the instance",
 	"(*Schema).CloneSchemas:Interface":        "fields reached through the registry are exported fields of Schema",
 	"(*Schema).everyChild:Interface":          "fields reached through the registry are exported fields of Schema",
-	"(*Schema).checkStructure$1:Interface":    "the value is a *Schema reached from the root through exported fields",
+	"role:structure-check:Interface":          "the value is a *Schema reached from the root through exported fields",
 	"jsonNumber:Interface":                    "json.Number is tested only on values the caller obtained from exported data",
 	"marshalStructWithMap:Interface":          "the map field is named by a constant that C18/unknown-accepted checks to be an existing, exported field of the wrapper's embedded Schema",
-	"(*Schema).checkStructure$1:Elem":         "the structure check is applied only to *Schema values: the root and the contents of schema-bearing fields selected by the registry (C17/registry-exhaustive); nil is rejected before the fields are visited",
-	"(*Schema).checkStructure$1:FieldByIndex": "as above: Elem of a non-nil *Schema is the Schema struct",
+	"role:structure-check:Elem":               "the structure check is applied only to *Schema values: the root and the contents of schema-bearing fields selected by the registry (C17/registry-exhaustive); nil is rejected before the fields are visited",
+	"role:structure-check:FieldByIndex":       "as above: Elem of a non-nil *Schema is the Schema struct",
 }
 
 func (c *Ctx) partialSites(rule string, closures []string) ([]partialSite, int) {
@@ -485,10 +485,11 @@ func rulePartialOps(c *Ctx, rule string) {
 			continue
 		}
 		name := core.FuncName(originOf(s.fn)) + ":" + s.op
-		if reason, ok := partialExempt[name]; ok {
-			c.R.OK(rule, "exempt:"+name, c.pos(s.call), "exempted: "+reason)
+		if reason, key, ok := c.exemptionFor(rule, s.fn, s.op); ok {
+			c.R.OK(rule, "exempt:"+key, c.pos(s.call), "exempted: "+reason)
 			continue
 		}
+		_ = name
 		if s.param != nil && s.fn.Parent() == nil {
 			r := req{s.fn, s.param}
 			forbidden[r] |= s.got &^ s.allowed
@@ -586,4 +587,82 @@ func (kf *kindFlow) refineFull(cond ssa.Value, cur KindSet) (KindSet, KindSet) {
 		return kf.full(cond, cur)
 	}
 	return kf.refine(cond, cur)
+}
+
+// exemptionFor looks an exemption up for the function itself, for the function it was extracted from
+// (climbing through single-call-site helpers and enclosing functions), and by role.
+func (c *Ctx) exemptionFor(rule string, fn *ssa.Function, op string) (reason, key string, ok bool) {
+	cur := originOf(fn)
+	for hops := 0; hops < 5 && cur != nil; hops++ {
+		if c.structureCheckFamily(rule)[cur] {
+			key = "role:structure-check:" + op
+			if r, ok := partialExempt[key]; ok {
+				return r, key, true
+			}
+		}
+		key = core.FuncName(cur) + ":" + op
+		if r, ok := partialExempt[key]; ok {
+			return r, key, true
+		}
+		if site := soleCaller(outermost(cur)); site != nil {
+			cur = originOf(site.Parent())
+			continue
+		}
+		if cur.Parent() != nil {
+			cur = cur.Parent()
+			continue
+		}
+		break
+	}
+	return "", "", false
+}
+
+// structureCheckFamily: the functions that make up the structure check of Resolve (C20/tree-check identifies
+// it by role: self-recursive over reflect.Value with a seen table keyed by *Schema).
+func (c *Ctx) structureCheckFamily(rule string) map[*ssa.Function]bool {
+	if c.structFam != nil {
+		return c.structFam
+	}
+	c.structFam = map[*ssa.Function]bool{}
+	for _, fn := range c.Closure(rule, "RES").Sorted() {
+		if !c.P.InPkg(fn) || (fn.Parent() == nil && (fn.Object() == nil || fn.Object().Exported())) {
+			continue
+		}
+		hasValueParam := false
+		for _, p := range fn.Params {
+			if tReflectValue(p.Type()) {
+				hasValueParam = true
+			}
+		}
+		if !hasValueParam {
+			continue
+		}
+		seen, rec := false, false
+		fam := c.familyInstrs(fn)
+		for _, fi := range fam {
+			switch x := fi.I.(type) {
+			case *ssa.Lookup:
+				if m, ok := x.X.Type().Underlying().(*types.Map); ok && isPointer(m.Key()) && c.isPkgNamed(m.Key(), "Schema") && x.CommaOk {
+					seen = true
+				}
+			case *ssa.Call:
+				if x.Call.StaticCallee() == fn {
+					rec = true
+				}
+				if x.Call.StaticCallee() == nil && !x.Call.IsInvoke() {
+					for _, callee := range core.Callees(c.G, x) {
+						if callee == fn {
+							rec = true
+						}
+					}
+				}
+			}
+		}
+		if seen && rec {
+			for _, fi := range fam {
+				c.structFam[fi.I.Parent()] = true
+			}
+		}
+	}
+	return c.structFam
 }
